@@ -53,6 +53,10 @@ pub fn lanes_of(id: &str) -> Vec<(&'static str, LaneFn)> {
 
 pub fn run(ctx: &Ctx, id: &str, only: Option<&str>) -> Vec<Value> {
     let mut out = vec![];
+    // thorough tier: one time budget per property, shared equally by its lanes
+    let budget: u64 = std::env::var("VERIF_THOROUGH_SECS").ok().and_then(|v| v.parse().ok()).unwrap_or(900);
+    let n_lanes = lanes_of(id).len().max(1) as u64;
+    let ctx = &Ctx { lane_cap_s: Some((budget / n_lanes).max(20)), ..ctx.clone() };
     for (name, f) in lanes_of(id) {
         if let Some(o) = only {
             if o != name {
@@ -60,7 +64,7 @@ pub fn run(ctx: &Ctx, id: &str, only: Option<&str>) -> Vec<Value> {
             }
         }
         // lanes that need child processes or real sockets cannot run inside the Miri interpreter
-        if cfg!(miri) && matches!(name, "stack" | "real_transports") {
+        if cfg!(miri) && matches!(name, "stack" | "real_transports" | "sync_streams" | "tls_connections") {
             continue;
         }
         let t = std::time::Instant::now();
